@@ -106,30 +106,8 @@ Snap snapshot(const vw::Registry& reg, const AltBlockTree& tree) {
 std::vector<std::string> checkUnchanged(const vw::Registry& reg, const Snap& b, const Snap& a, const std::string& target) {
   std::vector<std::string> bad;
   if (b.other != a.other) {
-    // KNOWN DEFECT of the library (reported, witness corpus/C02/pidx_duplicate_vtb.json), carved out narrowly: the VBK
-    // payload index maps a VTB id to a SET of containing blocks while a block holds a LIST of ids. When the same VTB is
-    // carried by the active ALT chain and by the candidate, rolling the candidate back erases the only set entry
-    // although the VTB is still applied. Tolerated: a `VBK pidx w -> v...` line that DISAPPEARS while w is carried by
-    // at least two ALT blocks and every such v still lists w among its VTBs. Extra (stale) lines are never tolerated.
-    auto knownPidxLoss = [&](const std::string& l) {
-      auto t = vh::split(l);
-      if (t.size() < 5 || t[0] != "VBK" || t[1] != "pidx" || t[3] != "->") return false;
-      bool dup = false;
-      for (auto& o : b.other) {
-        auto u = vh::split(o);
-        if (u.size() >= 6 && u[0] == "ALT" && u[1] == "pidx" && u[2] == t[2]) dup = true;
-      }
-      if (!dup) return false;
-      for (size_t i = 4; i < t.size(); i++) {
-        auto it = a.sp.find("VBK " + t[i]);
-        if (it == a.sp.end()) return false;
-        const std::string& rest = it->second.second;
-        if (rest.find("[" + t[2] + ",") == std::string::npos && rest.find("," + t[2] + ",") == std::string::npos) return false;
-      }
-      return true;
-    };
     std::string d;
-    for (auto& l : b.other) if (!std::binary_search(a.other.begin(), a.other.end(), l) && !knownPidxLoss(l)) { d += " -[" + l + "]"; if (d.size() > 600) break; }
+    for (auto& l : b.other) if (!std::binary_search(a.other.begin(), a.other.end(), l)) { d += " -[" + l + "]"; if (d.size() > 600) break; }
     for (auto& l : a.other) if (!std::binary_search(b.other.begin(), b.other.end(), l)) { d += " +[" + l + "]"; if (d.size() > 1200) break; }
     if (!d.empty()) bad.push_back("views differ:" + d);
   }
